@@ -193,3 +193,6 @@ uint64_t ext_sendfile(uint32_t out, uint32_t in, char* off, uint64_t n) { SK_NOT
 uint32_t ext_getsockname(uint32_t fd, char* addr, char* len) { SK_NOTREACHED(0); }
 uint32_t ext_getpeername(uint32_t fd, char* addr, char* len) { SK_NOTREACHED(0); }
 char* ext_strncpy(char* d, char* s, uint64_t n) { SK_NOTREACHED(d); }
+/* photon::thread_usleep is referenced by other classes of net/kernel_socket.cpp (server loop, edge-triggered poller) that share
+ * virtual-call slots with KernelSocketStream; no harness path sleeps (blocking goes through the stub engine's wait_for_fd). */
+uint32_t ext__ZN6photon13thread_usleepENS_7TimeoutE(uint64_t timeout) { SK_NOTREACHED(0); }
